@@ -4129,6 +4129,33 @@ int EGLPNUM_TYPENAME_ILLlib_readbasis (
 		ILL_CLEANUP;
 	}
 
+	/* The lines may be well formed one by one and still not describe a basis: a
+	 * column made basic twice, a row made non-basic twice, a bound status for a
+	 * column that was made basic, XU for a row without a range */
+
+	for (j = 0, i = 0; j < nstruct; j++)
+	{
+		if (B->cstat[j] == QS_COL_BSTAT_BASIC)
+			i++;
+	}
+	for (row = 0; row < nrows; row++)
+	{
+		if (B->rstat[row] == QS_ROW_BSTAT_BASIC)
+			i++;
+		else if (B->rstat[row] == QS_ROW_BSTAT_UPPER && qslp->sense[row] != 'R')
+		{
+			rval = EGLPNUM_TYPENAME_ILLmps_error (&state,
+				"BASIS row %d is not ranged and cannot be at upper\n", row);
+			ILL_CLEANUP;
+		}
+	}
+	if (i != nrows)
+	{
+		rval = EGLPNUM_TYPENAME_ILLmps_error (&state,
+			"BASIS has %d basic variables for %d rows\n", i, nrows);
+		ILL_CLEANUP;
+	}
+
 	/* Correct the free variables */
 
 	for (j = 0; j < nstruct; j++)
